@@ -436,21 +436,28 @@ func genCodec(c *ctx) {
 
 	// ---- 6. sendDataWriter framing under a changing buffer size; pipelineRecvData reads it back
 	sdwOne := func(binary bool, stream []byte, chunks [][]byte, sizes []int, dflt int, kind string) {
-		frames := trzsz.VerifSendDataWriter(binary, "\n", ints64(sizes), int64(dflt), chunks)
+		// the negotiated terminator: "\n", or "!\n" (Windows-console framing; base64 mode in practice)
+		nl := "\n"
+		if c.rng.Intn(3) == 0 && (!binary || c.rng.Intn(4) == 0) {
+			nl = "!\n"
+		}
+		c.count(fmt.Sprintf("sdw:newline=%q", nl))
+		frames := trzsz.VerifSendDataWriter(binary, nl, ints64(sizes), int64(dflt), chunks)
 		var bufs, datas [][]byte
 		for _, f := range frames {
 			bufs = append(bufs, f.Buffer)
 			datas = append(datas, f.Data)
 		}
 		nontrivial := len(frames) > 2
-		c.emit(nontrivial, "codec_sdw", hxs(bufs), codecBool(binary), hx([]byte("\n")), ints(sizes), fmt.Sprint(dflt), hxs(chunks))
+		c.emit(nontrivial, "codec_sdw", hxs(bufs), codecBool(binary), hx([]byte(nl)), ints(sizes), fmt.Sprint(dflt), hxs(chunks))
+		codecCheckTerminators(c, binary, nl, bufs, fmt.Sprintf("sendDataWriter binary=%v newline=%q sizes=%s dflt=%d chunks=%s", binary, nl, ints(sizes), dflt, hxs(chunks)))
 		if !bytes.Equal(bytes.Join(datas, nil), stream) {
 			c.violate("sdw-concat", "the frames of sendDataWriter do not concatenate to the stream written",
 				fmt.Sprintf("binary=%v sizes=%s dflt=%d chunks=%s frames=%s", binary, ints(sizes), dflt, hxs(chunks), hxs(datas)))
 		}
 		c.count("sdw:" + kind)
 		// the receiver's view; base64 frames must be base64 text to be readable, so only then
-		wire := append(bytes.Join(bufs, nil), []byte("#MD5:eJwDAAAAAAE=\n")...)
+		wire := append(bytes.Join(bufs, nil), []byte("#MD5:eJwDAAAAAAE="+nl)...)
 		readable := binary
 		if !binary {
 			readable = true
@@ -460,14 +467,29 @@ func genCodec(c *ctx) {
 				}
 			}
 		}
+		if nl != "\n" && binary {
+			readable = false // a binary payload under the Windows reader is not a configuration that occurs
+		}
 		if readable {
 			wchunks := c.split(wire, 1+c.rng.Intn(40))
-			got, acks, rest, err := trzsz.VerifPipelineRecvFrames(binary, 2, wchunks)
+			var got [][]byte
+			var acks []int
+			var rest []byte
+			var err error
+			if nl == "\n" {
+				got, acks, rest, err = trzsz.VerifPipelineRecvFrames(binary, 2, wchunks)
+			} else {
+				got, acks, rest, err = trzsz.VerifPipelineRecvFramesWindows(binary, 1, wchunks)
+			}
 			res := "err"
 			if err == nil {
 				res = "ok:" + hxs(got) + ":" + hx(rest)
 			}
-			c.emit(len(got) > 1, "codec_recv", res, codecBool(binary), hxs(wchunks))
+			if nl == "\n" {
+				c.emit(len(got) > 1, "codec_recv", res, codecBool(binary), hxs(wchunks))
+			} else {
+				c.emit(len(got) > 1, "codec_recv_win", res, hxs(wchunks))
+			}
 			want := datas[:len(datas)-1]
 			same := err == nil && len(got) == len(want) && len(acks) == len(datas)
 			if same {
@@ -535,6 +557,12 @@ func genCodec(c *ctx) {
 	// ---- 7. pipelineSendData: frames longer than the current buffer size are cut again
 	for i := 0; i < c.pick(300, 6000); i++ {
 		binary := c.rng.Intn(2) == 0
+		// the negotiated line terminator: "\n", or the Windows-console framing "!\n" (base64 mode
+		// in practice; the binary header line with it is exercised as well)
+		nl := "\n"
+		if c.rng.Intn(2) == 0 && (!binary || c.rng.Intn(4) == 0) {
+			nl = "!\n"
+		}
 		nf := 1 + c.rng.Intn(5)
 		var frames []trzsz.VerifFrame
 		var datas [][]byte
@@ -553,11 +581,11 @@ func genCodec(c *ctx) {
 		// assemble the wire form with the real sendDataWriter (one frame each)
 		for _, d := range datas {
 			if len(d) == 0 {
-				fr := trzsz.VerifSendDataWriter(binary, "\n", nil, 1, nil)
+				fr := trzsz.VerifSendDataWriter(binary, nl, nil, 1, nil)
 				frames = append(frames, fr[len(fr)-1])
 				continue
 			}
-			fr := trzsz.VerifSendDataWriter(binary, "\n", nil, int64(len(d)), [][]byte{d})
+			fr := trzsz.VerifSendDataWriter(binary, nl, nil, int64(len(d)), [][]byte{d})
 			frames = append(frames, fr[0])
 		}
 		// values of bufferSize in force message after message
@@ -589,7 +617,7 @@ func genCodec(c *ctx) {
 			}
 		}
 		sw := &codecSizeWriter{binary: binary, vals: vals, dflt: dflt}
-		acks, err := trzsz.VerifPipelineSendData(binary, "\n", int64(sw.value()), frames, func(set func(int64)) io.Writer {
+		acks, err := trzsz.VerifPipelineSendData(binary, nl, int64(sw.value()), frames, func(set func(int64)) io.Writer {
 			sw.set = set
 			return sw
 		})
@@ -601,10 +629,32 @@ func genCodec(c *ctx) {
 		} else {
 			c.count("psd:whole")
 		}
+		c.count(fmt.Sprintf("psd:newline=%q:split=%v", nl, split))
 		c.emit(split, "codec_psd", hx(sw.wire)+"|"+strings.Trim(strings.ReplaceAll(fmt.Sprint(acks), " ", ","), "[]"),
-			codecBool(binary), hx([]byte("\n")), ints(modelSizes), fmt.Sprint(dflt), hxs(datas))
-		// oracle: what goes out reads back as the same stream, ended by the finish flag
-		if binary || true {
+			codecBool(binary), hx([]byte(nl)), ints(modelSizes), fmt.Sprint(dflt), hxs(datas))
+		// oracle: every message pipelineSendData writes - assembled frame or re-split piece -
+		// ends with the negotiated terminator (base64 mode: the whole line; binary: the header)
+		codecCheckTerminators(c, binary, nl, sw.msgs, fmt.Sprintf("binary=%v newline=%q frames=%s sizes=%s dflt=%d wire=%s", binary, nl, hxs(datas), ints(vals), dflt, hx(sw.wire)))
+		if nl == "!\n" && !binary {
+			// oracle: the receiver of a Windows-framed connection (recvLine -> readLineOnWindows, which
+			// ends a line at '!' only) reads the stream back, whatever the chunking
+			tail := []byte("#MD5:eJwDAAAAAAE=!\n")
+			wire := append(append([]byte(nil), sw.wire...), tail...)
+			wchunks := c.split(wire, 1+c.rng.Intn(30))
+			got, _, rest, rerr := trzsz.VerifPipelineRecvFramesWindows(false, 1, wchunks)
+			want := bytes.Join(datas, nil)
+			restOK := bytes.Equal(rest, tail) || bytes.Equal(rest, append([]byte("\n"), tail...))
+			if rerr != nil || !restOK || !bytes.Equal(bytes.Join(got, nil), want) {
+				c.violate("resplit-windows-framing", "pipelineSendData's output under the \"!\\n\" framing is not read back by the Windows-console line reader",
+					fmt.Sprintf("frames=%s sizes=%s dflt=%d wire=%q chunks=%s got=%s rest=%q err=%v", hxs(datas), ints(vals), dflt, sw.wire, hxs(wchunks), hxs(got), rest, rerr))
+			}
+			res := "err"
+			if rerr == nil {
+				res = "ok:" + hxs(got) + ":" + hx(rest)
+			}
+			c.emit(split, "codec_recv_win", res, hxs(wchunks))
+		}
+		if nl == "\n" {
 			got, _, rest, rerr := trzsz.VerifPipelineRecvFrames(binary, 2, [][]byte{sw.wire})
 			want := bytes.Join(datas, nil)
 			if rerr != nil || len(rest) != 0 || !bytes.Equal(bytes.Join(got, nil), want) {
@@ -692,6 +742,8 @@ type codecSizeWriter struct {
 	idx    int
 	set    func(int64)
 	wire   []byte
+	msgs   [][]byte // the writes of each completed message, joined
+	cur    []byte
 	state  int // 0 = expecting the start of a message; binary: 1 = payload of a piece; base64: 1 = payload, 2 = newline
 }
 
@@ -703,6 +755,8 @@ func (w *codecSizeWriter) value() int {
 }
 
 func (w *codecSizeWriter) done() {
+	w.msgs = append(w.msgs, w.cur)
+	w.cur = nil
 	w.idx++
 	w.set(int64(w.value()))
 	w.state = 0
@@ -710,6 +764,7 @@ func (w *codecSizeWriter) done() {
 
 func (w *codecSizeWriter) Write(p []byte) (int, error) {
 	w.wire = append(w.wire, p...)
+	w.cur = append(w.cur, p...)
 	if w.binary {
 		switch w.state {
 		case 0:
@@ -740,6 +795,26 @@ func (w *codecSizeWriter) Write(p []byte) (int, error) {
 		w.done()
 	}
 	return len(p), nil
+}
+
+// every message must carry the negotiated terminator: base64 mode "#DATA:<payload><nl>",
+// binary mode "#DATA:<n><nl><payload>"
+func codecCheckTerminators(c *ctx, binary bool, nl string, msgs [][]byte, ctxt string) {
+	for i, m := range msgs {
+		ok := false
+		if binary {
+			if j := bytes.IndexByte(m, '\n'); j >= 0 {
+				ok = bytes.HasSuffix(m[:j+1], []byte(nl))
+			}
+		} else {
+			ok = bytes.HasSuffix(m, []byte(nl))
+		}
+		if !ok {
+			c.violate("frame-terminator", "a DATA message written by pipelineSendData does not end with the negotiated line terminator",
+				fmt.Sprintf("message %d = %q; %s", i, m, ctxt))
+			return
+		}
+	}
 }
 
 // ---- end to end: nothing the uploading client writes in binary mode is protected ----
@@ -840,6 +915,21 @@ func genCodecE2E(c *ctx) {
 			return
 		}
 		wc.nprot = len(prot)
+		// what the options promise whatever table is announced: '~' always, with -e also CR, DLE,
+		// XON, XOFF, CAN, ESC, GS and the 8-bit forms of CR, DLE, XON, XOFF, GS (the property's list;
+		// the built-in table has never contained 0x98 / 0x9b, the 8-bit forms of CAN and ESC: the
+		// property is about "the bytes a table promises to protect", see DESIGN 10.4)
+		promised := []byte{0x7e}
+		if wc.cfg.escape {
+			promised = append(promised, 0x0d, 0x10, 0x11, 0x13, 0x18, 0x1b, 0x1d, 0x8d, 0x90, 0x91, 0x93, 0x9d)
+		}
+		for _, b := range promised {
+			if !prot[b] {
+				wc.key = "table-misses-promised-byte"
+				wc.viol = fmt.Sprintf("the announced table does not protect %02x, which these options promise to keep off the wire", b)
+				prot[b] = true
+			}
+		}
 		w := res.wire[0]
 		for off, b := range w {
 			if prot[b] {
